@@ -8,6 +8,10 @@ use crate::serialize::{Deserializable, Serializable};
 
 const MAGIC_NUMBER: u16 = 45_139;
 
+/// Number of bytes written before the message body: magic number (2 bytes), protocol version
+/// (1 byte) and message type (1 byte).
+pub(crate) const MESSAGE_HEADER_LEN: usize = 4;
+
 /// Chitchat message.
 ///
 /// Each variant represents a step of the gossip "handshake"
